@@ -17,7 +17,7 @@ DEMODIR=$(grep -l "zz_seed_demo_test.go" -r $SW/README.md >/dev/null 2>&1; grep 
 [ -z "$DEMODIR" ] || [ "$DEMODIR" = "." ] && DEMODIR=$PKGDIR
 echo "package dir: $PKGDIR ; demo dir: $DEMODIR"
 cp $DEMO $DEMODIR/zz_seed_demo_test.go
-if grep -q "TestSuite)" $DEMO; then RUNARGS="-run Test.*Suite -testify.m SeedDemo"; else RUNARGS="-run SeedDemo"; fi
+if grep -qE "^func \(.*TestSuite\) Test" $DEMO; then RUNARGS="-run Test.*Suite -testify.m SeedDemo"; else RUNARGS="-run SeedDemo"; fi
 echo "== demo WITHOUT change"; go test ./$DEMODIR/ -vet=off -count=1 $RUNARGS 2>&1 | tail -3 | tee $OUT/demo_without.txt
 git apply $SW/patch.diff || { echo "patch does not apply"; exit 2; }
 echo "== build"; go build ./... 2>&1 | tail -3
